@@ -343,6 +343,10 @@ func c14Scenario(run *evid.Run, i int, j *Journal) {
 		return
 	}
 	if kind == "busy-source" {
+		if (i/len(c14Kinds))%3 == 2 {
+			c14ShrinkingSource(run, i, j)
+			return
+		}
 		c14BusySource(run, i, j)
 		return
 	}
@@ -913,6 +917,78 @@ func (b *busySource) GetEntries() iface.IPFSLogOrderedEntries {
 	r := b.IPFSLog.GetEntries()
 	b.afterRead()
 	return r
+}
+
+// shrinkingSource: between the two reads Join makes of its source (heads, then entries) a SIZE-BOUNDED merge into the
+// source runs to completion - the one kind of writer after which the source holds LESS than before.
+type shrinkingSource struct {
+	*ipfslog.IPFSLog
+	other *ipfslog.IPFSLog
+	size  int
+	done  int32
+}
+
+func (b *shrinkingSource) GetEntries() iface.IPFSLogOrderedEntries {
+	if atomic.CompareAndSwapInt32(&b.done, 0, 1) {
+		_, _ = b.IPFSLog.Join(b.other, b.size)
+	}
+	return b.IPFSLog.GetEntries()
+}
+
+// c14ShrinkingSource: the source is "merged into" with a size bound while it is being merged from. The result must be the
+// union with the source as it was before that merge or as it is after it.
+func c14ShrinkingSource(run *evid.Run, i int, j *Journal) {
+	rng := rand.New(rand.NewSource(run.Seed*1409 + int64(i)))
+	w := hx.NewWorld(run.Seed, 3, fmt.Sprintf("c14z-%d-%d", run.Seed, i), "hash", "cbor")
+	label := fmt.Sprintf("#%d shrinking-source: a size-bounded merge into the source completes between the two reads the merge makes of it", i)
+	j.Log(map[string]any{"scenario": label})
+	src, other, dst := w.NewLog(0), w.NewLog(1), w.NewLog(2)
+	k := 3 + rng.Intn(4)
+	for n := 0; n < k; n++ {
+		_, _ = src.Append(w.Ctx, []byte(fmt.Sprintf("s%d", n)), nil)
+	}
+	for n := 0; n < k+1+rng.Intn(3); n++ { // ahead of the source: what the bound keeps is the other log's newest
+		_, _ = other.Append(w.Ctx, []byte(fmt.Sprintf("o%d", n)), nil)
+	}
+	for n := 0; n < rng.Intn(3); n++ {
+		_, _ = dst.Append(w.Ctx, []byte(fmt.Sprintf("d%d", n)), nil)
+	}
+	size := 1 + rng.Intn(2)
+	before, dstBefore := hx.Observe(src), hx.Observe(dst)
+	ss := &shrinkingSource{IPFSLog: src, other: other, size: size}
+	var err error
+	run.Eval(1)
+	run.Count("scenarios_shrinking-source", 1)
+	okj, deadj, dumpj := guardCall(func() { _, err = dst.Join(ss, -1) }, 120*time.Second)
+	wit := func() map[string]any {
+		return map[string]any{"scenario": label, "seed": run.Seed, "source_entries_before": len(before.Set), "bound_of_the_merge_into_the_source": size}
+	}
+	if !okj {
+		if deadj {
+			wt := wit()
+			wt["blocked_goroutines"] = dumpj
+			run.Violate("C14/deadlock", det("kind", "shrinking-source"), wt, "the merge never returned (%s)", label)
+		} else {
+			run.Inconclusive("shrinking-source merge did not return: " + label)
+		}
+		return
+	}
+	if err != nil {
+		run.Violate("C14/join-error", det("kind", "shrinking-source"), wit(), "merge failed: %v", err)
+		return
+	}
+	after, got := hx.Observe(src), hx.Observe(dst)
+	wantA, wantB := model.Union(dstBefore.Set, before.Set), model.Union(dstBefore.Set, after.Set)
+	if !model.SameKeys(got.Set, wantA) && !model.SameKeys(got.Set, wantB) {
+		wt := wit()
+		wt["result_entries"], wt["destination_before"], wt["source_after"] = len(got.Set), len(dstBefore.Set), len(after.Set)
+		run.Violate("C14/not-a-snapshot", det("kind", "shrinking-source", "source_trimmed_between_the_two_reads_of_the_merge", "true"), wt,
+			"the merge result holds %d entries: neither the union with the source before the size-bounded merge into it (%d) nor with the source after it (%d)", len(got.Set), len(wantA), len(wantB))
+	}
+	if !model.EqualAsSets(got.Heads, model.Heads(got.Set)) {
+		run.Violate("C14/heads", det("kind", "shrinking-source"), wit(), "heads %v, unreferenced entries %v", hx.SortedShorts(got.Heads), hx.Shorts(model.Heads(got.Set)))
+	}
+	run.NonTrivial(fmt.Sprintf("shrinking-source/%d/%d", k, size))
 }
 
 // c14BusySource: termination decided on LOGICAL steps. A merge needs a bounded number of looks at its source however
